@@ -1117,6 +1117,11 @@ def run_sched_suite(driver, rng: random.Random, n_scenarios: int, n_schedules: i
     samples = []
     mon_evals = 0
     for k in range(n_scenarios if scenarios is None else len(scenarios)):
+        if hist["outcome:hang (watchdog)"] >= 4:
+            # every hang costs the watchdog's 10 s: a change that makes run() spin in many scenarios would otherwise keep the check
+            # busy for hours; what has been observed so far is judged
+            hist["suite cut short after 4 hangs"] += 1
+            break
         sc = gen_scenario(rng, **genkw) if scenarios is None else normalise(scenarios[k])
         d7 = nonuniform_cutoff(sc, False)
         for j in range(n_schedules):
